@@ -244,6 +244,12 @@ def ev_ed_op(uni, gname, fn, r1, r2, note):
 # --------------------------------------------------------------------------
 # C11 sampler, C14 derivations, C15 codecs, C17 transcript, C18 constants
 # --------------------------------------------------------------------------
+def small(v):
+    """JSON integers must fit TLC's 32-bit integers; anything else (a wildly wrong result) becomes -1, which no
+    specification value equals"""
+    return v if isinstance(v, int) and not isinstance(v, bool) and -2 ** 31 < v < 2 ** 31 else -1
+
+
 def _val(f):
     try:
         return {"t": "val", "v": f()}
@@ -289,7 +295,7 @@ def ev_rr_table(start, width, lo=0, hi=None):
         nreq.append(len(calls))
         nbs.update(calls)
     nb = nbs.pop() if len(nbs) == 1 else -1
-    return {"op": "rr_table", "start": start, "width": width, "nb": nb, "lo": lo, "hi": hi, "res": res, "nreq": nreq,
+    return {"op": "rr_table", "start": start, "width": width, "nb": small(nb), "lo": lo, "hi": hi, "res": [small(v) for v in res], "nreq": nreq,
             "w": max(1, (hi - lo) // 60)}
 
 
@@ -322,8 +328,13 @@ def ev_n2b_table(maxval):
         over = ""
     except Exception as e:
         over = type(e).__name__
-    return {"op": "n2b_table", "maxval": maxval, "outs": [hx(o) for o in outs], "back": [u.bytes_to_number(o) for o in outs],
-            "over": over, "size_bytes": u.size_bytes(maxval), "size_bits": u.size_bits(maxval), "w": max(1, maxval // 50)}
+    def back(o):
+        try:
+            return small(u.bytes_to_number(o))
+        except Exception:
+            return -1
+    return {"op": "n2b_table", "maxval": maxval, "outs": [hx(o) if isinstance(o, bytes) else "" for o in outs], "back": [back(o) for o in outs],
+            "over": over, "size_bytes": small(u.size_bytes(maxval)), "size_bits": small(u.size_bits(maxval)), "w": max(1, maxval // 50)}
 
 
 def ev_n2b(num, maxval):
@@ -429,4 +440,4 @@ def ev_u_dec(uni, gname, b):
 def ev_mask_table(top):
     sp = load_repo()
     res = [sp.util.generate_mask(m) for m in range(1, top + 1)]
-    return {"op": "mask_table", "masks": [r[0] for r in res], "nbytes": [r[1] for r in res], "w": max(1, top // 100)}
+    return {"op": "mask_table", "masks": [small(r[0]) for r in res], "nbytes": [small(r[1]) for r in res], "w": max(1, top // 100)}
